@@ -207,13 +207,14 @@ pub fn client_case(data: &[u8]) -> Result<(), String> {
 // ---------------------------------------------------------------------------------------------------------------
 // fz_history: a whole client history decoded from fuzzer bytes (configuration, then one operation per opcode byte)
 
-const FZ_CREDS: [(&str, &str); 6] = [
+const FZ_CREDS: [(&str, &str); 7] = [
     ("user", "secret-pass"),
     ("x\u{a0}y ", "p\u{e4}ss word"),
     ("u", "0123456789012345678901234567890123456789012345678901234567890123"),
     ("user", "0123456789012345678901234567890123456789012345678901234567890123456789-longer-than-the-hmac-block"),
     ("\u{212b}ngstr\u{f6}m", "\u{3000}wide"),
     ("a-user-name-that-is-rather-long@example.org", "p"),
+    ("user", " blanks at both ends "),
 ];
 
 fn fz_reply(u: &mut Unstructured) -> AResult<Reply> {
@@ -384,8 +385,9 @@ pub fn history_from(u: &mut Unstructured) -> AResult<History> {
         2 => (1 + (b2 & 0x1F) as u32, 1 + (b2 >> 5) as u32),
         _ => (1 + (b2 & 3) as u32, 1 + (b2 >> 2 & 3) as u32),
     };
-    let max_tx = match b2 % 7 {
+    let max_tx = match b2 % 8 {
         0..=2 => 10,
+        7 => 12,
         k => (k - 3) as usize,
     };
     let (user, password) = FZ_CREDS[(b2 >> 3) as usize % FZ_CREDS.len()];
